@@ -375,9 +375,26 @@ def decide(spec, group, tier, seed, replay=None):
             xcases = xgen(core.Gen(seed + 17), tier) if not replay else [c for c in cases if c.line.startswith(xgroup.get('replay_prefix', 'mp.'))]
             xlines = [c.line for c in xcases]
             xo = core.run_lines([exe], xlines)
+            # lines of this group that have a model: compared with the driver's answer
+            xm = {}
+            if xgroup.get('driver') and ok:
+                cidx = [i for i, c in enumerate(xcases) if c.kind == 'cmp']
+                if cidx:
+                    mo = core.run_lines([core.driver_exe(), xgroup['driver']], [xlines[i] for i in cidx])
+                    for j, i in enumerate(cidx): xm[i] = mo[j] if j < len(mo) else 'err no-output'
             for xi, (c, o) in enumerate(zip(xcases, xo)):
                 if not replay:
                     cases.append(c); impl_out[len(cases) - 1] = o
+                else:
+                    impl_out[cases.index(c)] = o
+                if xi in xm:
+                    ci = cases.index(c)
+                    model_out[ci] = xm[xi]
+                    if canon(o) != canon(xm[xi]):
+                        k = known_match(known, pid, c.line)
+                        if k: known_hits.append((k, c.line))
+                        elif ci not in corr_breaks: corr_breaks.append(ci)
+                if c.kind == 'cmp' and not c.check: continue
                 chk = c.check or all_zero
                 why = chk(core.parse_vals(o), o)
                 if why:
